@@ -8,6 +8,8 @@ package main
 //c01:entry m2(int,string) int,string
 //c01:entry m3(int) int,int
 //c01:entry m4(int) int
+//c01:entry m5(int,int) int,int
+//c01:entry m6(int) int,string
 
 var G0 int = 0
 
@@ -115,4 +117,56 @@ func m4(a int) (r int) {
 		t.Mid = &Mid{Base{a, ""}, a}
 	}
 	return t.Extra()
+}
+
+type Wrap struct {
+	IDer // embedded interface: promoted method dispatches dynamically
+	n    int
+}
+
+type Deep struct {
+	Wrap
+	*Cnt
+}
+
+func m5(a, b int) (int, int) {
+	w := Wrap{Base{a, "b"}, 1}
+	c := Cnt(b)
+	d := Deep{w, &c}
+	d.Inc(2) // through embedded *Cnt
+	f := d.ID  // bound through two levels of embedding, the second an interface
+	d.IDer = Mid{Base{b, ""}, 0}
+	g := Deep.ID // method expression on the outer struct
+	h := (*Mid).SetID
+	m := Mid{Base{1, ""}, 2}
+	h(&m, a+b)
+	var i IDer = d
+	return f()*1000 + g(d)*10 + i.ID(), d.Get() + m.ID()
+}
+
+type Labeler interface{ Label(int) string }
+
+type L1 struct{ pre string }
+
+func (l L1) Label(k int) string { return l.pre + string(rune('a'+k%26)) }
+
+type L2 struct {
+	Labeler
+	suffix string
+}
+
+func (l L2) Label(k int) string { return l.Labeler.Label(k) + l.suffix }
+
+func m6(a int) (int, string) {
+	if a < 0 {
+		a = -a
+	}
+	var lb Labeler = L2{L2{L1{"<"}, "1"}, "2"}
+	fs := []func(int) string{lb.Label, L1{"-"}.Label, nil}[:2]
+	me := Labeler.Label
+	out := me(lb, a+7)
+	for i, f := range fs {
+		out += f(a + i)
+	}
+	return len(out), out
 }
